@@ -12,6 +12,7 @@ import (
 	"path/filepath"
 	"strings"
 	"sync"
+	"syscall"
 	"time"
 
 	// imports required for go-digest
@@ -163,6 +164,10 @@ func (d *dir) RepoGet(ctx context.Context, repoStr string) (Repo, error) {
 	dr.uploads = cache.New[string, *dirRepoUpload](uploadCacheOpts)
 	dr.wgBlock <- struct{}{}
 	statDir, err := os.Stat(dr.path)
+	if (err == nil && !statDir.IsDir()) || errors.Is(err, syscall.ENOTDIR) {
+		// the name, or a leading part of it, is a file in the root directory
+		return nil, fmt.Errorf("repo %s cannot be used, %s is not a directory%.0w", repoStr, dr.path, types.ErrRepoNotAllowed)
+	}
 	if err == nil && statDir.IsDir() {
 		statIndex, errIndex := os.Stat(filepath.Join(dr.path, indexFile))
 		//#nosec G304 internal method is only called with filenames within admin provided path.
